@@ -552,6 +552,11 @@ class Ptychography(PtychographyOpt, PtychographyVisualizations, PtychographyBase
                     dset.verbose = 0
                     dset.preprocess(**preprocessing_params)
                     dset.verbose = _v
+                    # preserve learned scan positions and descan shifts (as for a provided dataset)
+                    if "learned_scan_positions_px" in metadata:
+                        dset.scan_positions_px.data = metadata["learned_scan_positions_px"]
+                    if "learned_descan_shifts" in metadata:
+                        dset.descan_shifts.data = metadata["learned_descan_shifts"]
 
                     print(f"Successfully reloaded dataset from {file_path}")
                 else:
